@@ -121,5 +121,38 @@ def _has_class(L, cls):
 def reduce_argpos_indexed_content(case, why):
     """F11: argmin/argmax along a non-innermost axis lose the position shift when the lists' content is a
     (non-option) IndexedArray: argmax([[],[1]], axis=0) with IndexedArray leaves gives [0], not [1]."""
-    return (case.get("act") == "reduce" and case["args"]["reducer"] in ("argmin", "argmax") and _negaxis(case) >= 2
+    positional = (case.get("act") == "argsort"
+                  or (case.get("act") == "reduce" and case["args"]["reducer"] in ("argmin", "argmax")))
+    return (positional and _negaxis(case) >= 2
             and _has_class(case.get("from"), "Indexed") and why.startswith("value differs"))
+
+
+def _has_nan(L):
+    if not isinstance(L, dict):
+        return False
+    if L.get("c") == "Numpy" and L.get("dt", "").startswith("float") and -777 in L.get("d", []):
+        return True
+    if "x" in L and _has_nan(L["x"]):
+        return True
+    return any(_has_nan(x) for x in L.get("xs", []))
+
+
+def sort_unstable_nan(case, why):
+    """F14: sort(stable=False) of floats containing NaN does not put NaN first and may not even be ordered
+    ([2,nan,1] ascending gives [1,nan,2]); the stable path is correct."""
+    return (case.get("act") == "sort" and case["args"]["stable"] == 0 and _has_nan(case.get("from"))
+            and why.startswith("value differs"))
+
+
+def argsort_all_missing(case, why):
+    """F15: argsort of an option-type leaf array none of whose elements is valid returns an invalid layout
+    (IndexedOptionArray index >= len(content))."""
+    return (case.get("act") == "argsort" and _has_option(case.get("from"))
+            and (why.startswith("tojson raised") or why.startswith("result fails validity")))
+
+
+def argsort_nonlocal_depth3_positions(case, why):
+    """F16: argsort along a non-innermost axis of an array with three or more list levels does not count the
+    rows that are too short (same root cause as F07): argsort([[],[[1]]], axis=0) gives [[],[[0]]]."""
+    return (case.get("act") == "argsort" and _negaxis(case) >= 2 and case.get("fromty", "").count(" * ") >= 2
+            and why.startswith("value differs"))
